@@ -25,6 +25,17 @@ PSec(title, opts) == [title |-> title, opts |-> opts]
 None     == [kind |-> "none", loc |-> <<>>, oi |-> 0]
 Unspec   == [kind |-> "unspec", loc |-> <<>>, oi |-> 0]
 IsDigits(s) == s # <<>> /\ \A k \in 1..Len(s) : s[k] \in 48..57
+(* text that strtol(., base 0) would consume completely without being a plain decimal numeral:
+   a sign, a leading zero, an 0x prefix, leading blanks - whether such a spelling addresses a
+   section is left open; anything else that is not decimal digits is simply not an index *)
+OddNumeral(s) ==
+  LET body == IF s # <<>> /\ s[1] \in {43, 45} THEN Tail(s) ELSE s
+  IN /\ body # <<>>
+     /\ ~IsDigits(s) \/ (Len(s) > 1 /\ s[1] = 48)
+     /\ \/ IsDigits(body)
+        \/ (Len(body) > 2 /\ body[1] = 48 /\ body[2] \in {120, 88} /\
+            \A k \in 3..Len(body) : body[k] \in (48..57) \cup (65..70) \cup (97..102))
+        \/ (body[1] \in {32, 9})
 
 LeafIdx(sec, name) ==
   LET S == {i \in 1..Len(sec.opts) : sec.opts[i].name = name}
@@ -102,8 +113,7 @@ OpWalk(sec, loc, s, i, wantSec, last) ==
               LET idx == IF "TITLE" \in o.flags THEN TitleIdx(o.vals, pt.title)
                          ELSE IF ~IsDigits(pt.title) THEN (IF pt.title = <<>> THEN 0 ELSE 999)
                          ELSE IF Len(StripZ(pt.title)) > 3 THEN 0 ELSE DecVal(StripZ(pt.title)) + 1
-                  odd == "TITLE" \notin o.flags /\ pt.title # <<>> /\
-                         (~IsDigits(pt.title) \/ (Len(pt.title) > 1 /\ pt.title[1] = 48))
+                  odd == "TITLE" \notin o.flags /\ OddNumeral(pt.title)
                   nxt == Spn(s, pt.next, {cBar})
               IN IF ~wantSec /\ pt.next > Len(s) THEN None   \* an option path cannot end in a qualifier
                  ELSE IF odd THEN Unspec                   \* signs, radix prefixes, blanks in an index: left open
@@ -158,7 +168,8 @@ RefEnter(sec, st) ==
                     IN IF t = 0 THEN [ok |-> "no", k |-> 0, ii |-> 0] ELSE [ok |-> "yes", k |-> k, ii |-> t]
              ELSE (* an index *)
                   IF st.val = <<>> THEN [ok |-> "no", k |-> 0, ii |-> 0]
-                  ELSE IF ~IsDigits(st.val) \/ (Len(st.val) > 1 /\ st.val[1] = 48) THEN [ok |-> "unspec", k |-> 0, ii |-> 0]
+                  ELSE IF OddNumeral(st.val) THEN [ok |-> "unspec", k |-> 0, ii |-> 0]
+                  ELSE IF ~IsDigits(st.val) THEN [ok |-> "no", k |-> 0, ii |-> 0]
                   ELSE IF Len(st.val) > 3 \/ DecVal(st.val) + 1 > Len(o.vals) THEN [ok |-> "no", k |-> 0, ii |-> 0]
                   ELSE [ok |-> "yes", k |-> k, ii |-> DecVal(st.val) + 1]
 
